@@ -738,7 +738,8 @@ class TiltScenario(OpticsBase):
                    'expected window positions are not judged when the displacement is within 1e-6 of a non-zero integer',
                    'segments have >= 3 non-collinear pixels so the least-squares tilt is unique']
     must_hit = ['subpixel_only', 'beyond_output', 'nonsquare_pixel', 'per_segment_tilt', 'three_elements', 'carrier:tilt-planes',
-                'carrier:wavefront-tilt', 'carrier:fit', 'carrier:refit', 'carrier:dispersive', 'trace_order:1/1']
+                'carrier:wavefront-tilt', 'carrier:fit', 'carrier:refit', 'carrier:dispersive', 'carrier:wavefront-tilt+fit',
+                'carrier:tilt-planes-before-pupil', 'trace_order:1/1']
     probe_names = must_hit + ['coldwarm_audit', 'no_common_samples', 'trace_order:2/1', 'trace_order:1/2']
 
     def program(self, rng, world, force=None):
@@ -840,6 +841,21 @@ class TiltScenario(OpticsBase):
             b.E('check.fit', ['@' + pf, '@' + q], t={'segmented': k > 1}, tag='c')
             wq_pre, iq = image(q)
             b.E('check.equiv', ['@' + iq, '@' + ie, '@' + wq_pre, '@' + we_pre], t=dict(base_t, carrier='fit'), tag='c')
+        # ---- carriers combined: a fitted pupil (per-segment tilt recorded) met by a wavefront that already carries tilt,
+        #      and Tilt planes applied BEFORE the pupil ("all orderings of tilt elements in a plane chain")
+        if rng.random() < 0.6 or force:
+            pfs = b.E('Pupil', None, dict(pkw, opd='@' + o_rs, mask='@' + m), tag='p')
+            qs = b.E('Plane.fit_tilt', ['@' + pfs], tag='q')
+            wt2 = b.E('Wavefront', [ph['wl']], {'tilt': [gx, gy]}, tag='w')
+            wcq_pre, icq = image(qs, wid=wt2)
+            b.E('check.equiv', ['@' + icq, '@' + ie, '@' + wcq_pre, '@' + we_pre], t=dict(base_t, carrier='wavefront-tilt+fit'), tag='c')
+            wcur = W0
+            for j in order:
+                wcur = b.E('Plane.multiply', ['@' + tids[j], '@' + wcur], t={'expect': 'ok'}, tag='w')
+            wtq_pre, itq = image(qs if rng.random() < 0.6 else pb, wid=wcur)
+            b.E('check.equiv', ['@' + itq, '@' + ie, '@' + wtq_pre, '@' + we_pre], t=dict(base_t, carrier='tilt-planes-before-pupil', permuted=True), tag='c')
+            b.E('check.shift', ['@' + wcur, [['tilt', t[0], t[1]] for t in parts], z, du, os_],
+                t={'n_elements': nel, 'square': square, 'kinds': 'tilt'}, tag='c')
         # ---- carrier: fit, update the OPD, fit again (history)
         if rng.random() < 0.5 or force:
             oc = b.E('np.copy', ['@' + o_rs], tag='o')
